@@ -122,6 +122,29 @@ def gen_closure(module):
     return gens
 
 
+PIN_EXEMPT = re.compile(r'(Buf|Size|Slack|Alloc|Chunk|chunksize|Unit|Cap)', re.I)
+
+
+def gen_defs(path):
+    """name -> definition text of a generated Lean file (doc comments and blank lines dropped)"""
+    if not os.path.exists(path):
+        return {}
+    out, name, buf = {}, None, []
+    for line in open(path):
+        if line.startswith(('/--', '--')) or not line.strip():
+            continue
+        m = re.match(r'(?:def|abbrev)\s+(\w+)', line)
+        if m:
+            if name:
+                out[name] = ' '.join(buf)
+            name, buf = m.group(1), [line.split(':=', 1)[-1].strip()]
+        elif name and not line.startswith(('namespace', 'end ', 'open ', 'import')):
+            buf.append(line.strip())
+    if name:
+        out[name] = ' '.join(buf)
+    return out
+
+
 def lean_prepare(ctx, required, modules=None, extra_gens=None):
     """extract Gen, build theorems + driver, audit. Fills ctx.theorems / ctx.unshown."""
     prop = ctx.prop
@@ -137,6 +160,20 @@ def lean_prepare(ctx, required, modules=None, extra_gens=None):
             if f[:-5] in used:
                 for b in msgs:
                     ctx.unshown.append('extract:%s: %s' % (f, b))
+        # Pinned values.  Constants and tables that the models take from the source would silently follow a
+        # change of the source (the regenerated model and the changed code agree, and a theorem that does not
+        # mention the value still checks).  genref/ holds the values the theorems and the documentation were
+        # read against; a definition of a Gen file in this property's closure that differs from its pinned
+        # text is an obligation that no longer checks (`Gen.x = pinned x`), named in the replay.  Buffer and
+        # chunk sizes are exempt: the theorems quantify over them or re-prove their bounds.  After a
+        # deliberate change (a repair in /repo) the reference is refreshed with tools/genref.py.
+        for f in sorted(used):
+            cur, ref = gen_defs(os.path.join(LEAN, 'QsmtpModel', 'Gen', f + '.lean')), gen_defs(os.path.join(VERIF, 'genref', f + '.lean'))
+            if ref:
+                diff = sorted(n for n in set(cur) | set(ref) if cur.get(n) != ref.get(n) and not PIN_EXEMPT.search(n))
+                if diff:
+                    ctx.unshown.append('extract:%s.lean: pinned value(s) changed in the source: %s' % (f, ', '.join(
+                        '%s (%s -> %s)' % (n, (ref.get(n) or 'absent')[:40], (cur.get(n) or 'absent')[:40]) for n in diff[:6])))
         r = sh(['lake', 'build', 'qsdrv'], cwd=LEAN)
         if r.returncode != 0:
             ctx.unshown.append('driver build failed (models do not compile against regenerated Gen)')
